@@ -423,9 +423,12 @@ def unit_train_epoch(S):
         te = [c for c in ctx2.calls[n0:] if c.name == "TE#"]
         S.fact("train/one-train_epoch-per-epoch", len(te) == 1, function=F_T, what="each epoch is one train_epoch")
         if len(te) == 1:
-            split = ctx2.uf("split", [ir.KeySort, z3.IntSort(), z3.IntSort()], ir.KeySort)
-            S.prove("train/epoch-key-fresh", ctx2, te[0].operands[2].scalar() == split(kc2, NEz, j), hyps=[j >= 0, j < NEz], function=F_T,
-                    what="epoch j shuffles with its own key split(key, num_epochs)[j] (pairwise different by A-RNG): a fresh shuffle every epoch")
+            from lvc.vc import term_contains
+            Kj = te[0].operands[2].scalar()
+            j2 = z3.Int("j_other")
+            Kj2 = z3.substitute(Kj, (j, j2))
+            S.prove("train/epoch-key-fresh", ctx2, z3.And(z3.BoolVal(term_contains(Kj, kc2)), Kj != Kj2), hyps=[j >= 0, j < NEz, j2 >= 0, j2 < NEz, j != j2] + kit.rng_index_injective(ctx2), function=F_T,
+                    replay=native_epoch_replay, what="epoch j shuffles with a key derived from the update's key and j, and different epochs get different keys (A-RNG: split / fold_in injective in the index), however the key is derived: a fresh shuffle every epoch")
             S.prove("train/every-epoch-sees-the-whole-buffer", ctx2, sand(*[kit.arr_eq_at(a, b, ()) for a, b in zip(te[0].operands[3:], kit.leaves(buf2))]), hyps=[j >= 0, j < NEz], function=F_T,
                     what="every epoch visits the same collected data (the buffer is passed unchanged)")
 
